@@ -754,6 +754,21 @@ type headerParamDecoder struct {
 	header http.Header
 }
 
+// headerFieldValue is the value of a header field sent on one or several lines: the lines stand for
+// one comma-separated list (RFC 7230, section 3.2.2).
+func headerFieldValue(lines []string) string {
+	return strings.Join(lines, ",")
+}
+
+// headerListItems splits a comma-separated header value; optional white space around an item is not part of it.
+func headerListItems(value string) []string {
+	items := strings.Split(value, ",")
+	for i, item := range items {
+		items[i] = strings.Trim(item, " \t")
+	}
+	return items
+}
+
 func (d *headerParamDecoder) DecodePrimitive(param string, sm *openapi3.SerializationMethod, schema *openapi3.SchemaRef) (any, bool, error) {
 	if sm.Style != "simple" {
 		return nil, false, invalidSerializationMethodErr(sm)
@@ -765,7 +780,7 @@ func (d *headerParamDecoder) DecodePrimitive(param string, sm *openapi3.Serializ
 		return nil, ok, nil
 	}
 
-	val, err := parsePrimitive(raw[0], schema)
+	val, err := parsePrimitive(headerFieldValue(raw), schema)
 	return val, ok, err
 }
 
@@ -780,7 +795,7 @@ func (d *headerParamDecoder) DecodeArray(param string, sm *openapi3.Serializatio
 		return nil, ok, nil
 	}
 
-	val, err := parseArray(strings.Split(raw[0], ","), schema)
+	val, err := parseArray(headerListItems(headerFieldValue(raw)), schema)
 	return val, ok, err
 }
 
@@ -798,7 +813,7 @@ func (d *headerParamDecoder) DecodeObject(param string, sm *openapi3.Serializati
 		// HTTP request does not contain a corresponding header.
 		return nil, ok, nil
 	}
-	props, err := propsFromString(raw[0], ",", valueDelim)
+	props, err := propsFromString(headerFieldValue(raw), ",", valueDelim)
 	if err != nil {
 		return nil, ok, err
 	}
